@@ -1,7 +1,7 @@
 CONSTANTS
  Scenarios = {}
  MaxCrash = 0
- Variant = "ownerfix"
+ Variant = "asfound"
 SPECIFICATION DSpec
 CONSTRAINT HW
 POSTCONDITION Reached
